@@ -48,6 +48,8 @@ pub struct RunConfig {
     pub cap_limit: Option<usize>,
     /// Abort the run when this many decision points have been passed (bounded liveness).
     pub step_budget: u64,
+    /// Abort the run when this many decision points have been passed after the injected stop event.
+    pub budget_after_stop: Option<u64>,
     /// Estimate of the run length, used by PCT to place its change points.
     pub expected_steps: u64,
     /// Inject the stop event (the store the signal handler performs) at this decision step.
@@ -63,6 +65,7 @@ impl Default for RunConfig {
             seed: 0,
             cap_limit: None,
             step_budget: 5_000_000,
+            budget_after_stop: None,
             expected_steps: 2000,
             stop_at_step: None,
             replay: Vec::new(),
@@ -124,6 +127,9 @@ pub struct Outcome {
     pub arrival_msgs: u64,
     pub max_runnable: usize,
     pub aborted: bool,
+    /// At the first step at which the stop flag is seen set: (largest number of undelivered messages in one
+    /// data queue (crossbeam), largest capacity among the bounded data queues of the run).
+    pub backlog_at_stop: Option<(u64, u64)>,
 }
 
 impl Outcome {
@@ -265,6 +271,19 @@ pub fn set_stop_flag(flag: Arc<AtomicBool>) {
     let mut g = lock_rt();
     if let Some(rt) = g.as_mut() {
         rt.stop_flag = Some(flag);
+    }
+}
+
+/// The stop event, delivered now (from the input seam: a signal arriving while a thread is between two
+/// decision points).
+pub(crate) fn inject_stop_now() {
+    let mut g = lock_rt();
+    if let Some(rt) = g.as_mut() {
+        if let Some(f) = &rt.stop_flag {
+            f.store(true, Ordering::SeqCst);
+            rt.out.stop_injected_at = Some(rt.out.steps);
+            crate::io::mark_stop();
+        }
     }
 }
 
@@ -455,11 +474,21 @@ pub(crate) fn decision_point(me: usize, cond: Cond, op: OpKind, obj: usize) {
     if let Some(f) = &rt.stop_flag {
         if f.load(Ordering::SeqCst) {
             crate::io::mark_stop_once();
+            if rt.out.backlog_at_stop.is_none() {
+                let data = rt.chans.iter().filter(|m| !m.is_flume);
+                let worst = data.clone().map(|m| m.len.load(Ordering::SeqCst) as u64).max().unwrap_or(0);
+                let bound = data.filter(|m| m.cap != usize::MAX).map(|m| m.cap as u64).max().unwrap_or(0);
+                rt.out.backlog_at_stop = Some((worst, bound));
+            }
         }
     }
     rt.threads[me].pending = cond;
     rt.threads[me].state = ThState::Ready;
-    if step > rt.cfg.step_budget {
+    let late_after_stop = match (rt.out.stop_injected_at, rt.cfg.budget_after_stop) {
+        (Some(s), Some(b)) => step > s.saturating_add(b),
+        _ => false,
+    };
+    if step > rt.cfg.step_budget || late_after_stop {
         rt.out.budget_exceeded = true;
         rt.abort();
         drop(guard);
